@@ -160,6 +160,8 @@ impl<B, S: AsRef<[i64]>> Wnaf<usize, B, S> {
         B: AsMut<Vec<G>>,
     {
         wnaf_table(self.base.as_mut(), base, self.window_size);
+        #[cfg(pairing_plus_verif)]
+        ::verif_hooks::point(11);
         wnaf_exp(self.base.as_mut(), self.scalar.as_ref())
     }
 }
@@ -174,6 +176,8 @@ impl<B, S: AsMut<Vec<i64>>> Wnaf<usize, B, S> {
         B: AsRef<[G]>,
     {
         wnaf_form(self.scalar.as_mut(), scalar, self.window_size);
+        #[cfg(pairing_plus_verif)]
+        ::verif_hooks::point(12);
         wnaf_exp(self.base.as_ref(), self.scalar.as_mut())
     }
 }
